@@ -7,12 +7,47 @@ ROOT = os.path.dirname(os.path.dirname(os.path.abspath(__file__)))
 sys.path.insert(0, ROOT)
 
 CHECKS = {
+    'C01': dict(
+        text='All name-lists up to a length bound over an alphabet of DB, unknown, gss-*, 300-character, non-UTF-8 and special-character names, '
+             'per category and crossed, asymmetric c2s/s2c, compression lists and banners, for server and client role under plain/batch/verbose/'
+             'JSON rendering, plus every SSH-1 cipher and authentication mask; the report is compared with an independent decode of what the peer sent.',
+        note='Names with control characters or spaces are outside the alphabet; verbose rendering compared modulo adjacent duplicates.',
+        technique='explicit enumeration of all executions of the real CLI over a bounded input product, independent-decoder oracle',
+        design='3/C01'),
+    'C02': dict(
+        text='Every mix and order of severity classes {fail, fail+warn, warn, clean, unknown} per category up to list length 2, crossed over '
+             'categories, under 36 option sets; every fault on the initial connection for SSH-2/SSH-1/1.99/client archetypes in text and JSON; '
+             'policy verdict cases. Oracle: status fold of the tags in the same report, all-or-nothing report for broken handshakes.',
+        note='Representative names stand for their severity class; the fold is read from the text report of the same run.',
+        technique='explicit enumeration of executions (input product + 1 environment deviation), status-fold reference model',
+        design='3/C02'),
+    'C03': dict(
+        text='Every database name (gss-* instantiated) and unknown names x position x neighbour context x role x text/JSON, plus --lookup: notes '
+             'must be a function of (category, name, documented context) and equal across views.',
+        note='Measured sizes held fixed; Terrapin context from refmodels/terrapin.py.',
+        technique='explicit enumeration of executions of the real CLI, differential oracle across views',
+        design='3/C03'),
     'C04': dict(
         text='Exhaustive product of role x marker x ChaCha x CBC x ETM (every matching database name plus unknown names of the same shape), '
              'text and JSON, each audited by the real CLI in the virtual environment and compared with an independent Terrapin rule.',
         note='Virtual TCP delivers whole messages; lists symmetric; reference rule in refmodels/terrapin.py.',
         technique='explicit enumeration of all executions of the real CLI over a finite input product (0 deviations), reference-model oracle',
         design='3/C04'),
+    'C05': dict(
+        text='Chained invocations (-M then -P) for a family of peers (lists incl. "=", "+", "/", "@" names, RSA/Ed25519/certificate host keys with '
+             'RSA/Ed25519/ECDSA CAs, GEX moduli, both roles) and every single-attribute perturbation of each; all built-in policies against a peer '
+             'synthesised from the policy.',
+        note='Peer family is a bounded sample of the configuration space, perturbations are exhaustive per peer.',
+        technique='explicit enumeration of operation sequences (make-policy, then audit same/perturbed peer) on the real CLI',
+        design='3/C05'),
+    'C06': dict(
+        text='All (policy, peer) pairs over a 3-name universe (kex +2 markers): every policy list {absent, len 1..3} x every peer list len 0..3 x '
+             'flags, optional-host-key subsets, size maps over boundary values x larger-keys, CA type/size, pairwise field crosses; direct calls '
+             'of the real evaluate on objects built by the real policy parser and KEXINIT parser, compared with a reference model; metamorphic '
+             'shrink/grow; a covering subset through the CLI.',
+        note='Reference model refmodels/policy.py encodes the documented rules; errors compared as sets.',
+        technique='exhaustive small-universe enumeration against a reference model (explicit-state, direct calls + CLI conformance)',
+        design='3/C06'),
     'C07': dict(
         text='All ordered pairs (thorough: triples) of target archetypes, one per channel through which a scan edits rating state, as -T runs '
              'with 1..3 worker threads in text/JSON/policy mode; every interleaving of the targets\' connection events up to a preemption bound '
@@ -34,6 +69,20 @@ CHECKS = {
         note='Virtual clock and op budget stand in for wall time; random DH exponent pinned; environment model mc/vnet.py + mc/peer.py.',
         technique='deviation-bounded exhaustive fault enumeration (stateless exploration of the implementation under a fault injector)',
         design='3/C09'),
+    'C10': dict(
+        text='Dense integer windows, +-2^k+d for all k up to 8192, every 3-word 32-bit pattern with both signs, scalars, name-lists up to length 3, '
+             'KEXINIT and SSH-1 public-key messages, send_packet framing for every payload length 0..4096 checked by an independent decoder and '
+             'read back by the real reader, SSH-1 CRC for all lengths 0..512 and every single-bit corruption of a packet.',
+        note='Independent codec mc/wire.py; random big integers are supplementary only.',
+        technique='exhaustive bounded enumeration of codec inputs with inverse-law and independent-decoder oracles',
+        design='3/C10'),
+    'C14': dict(
+        text='All ordered pairs of 1-2 component versions over 19 component values, a 300-element slice of 3-4 component versions, all pairs and '
+             'triples of a 60-element mixed set with patch suffixes, for OpenSSH/Dropbear/libssh; end-to-end through the CLI for banners around every '
+             'first-appeared version in the DB and multi-digit versions.',
+        note='Numeric order = component-wise integer comparison; trailing-zero and patch-level ties only need antisymmetry/transitivity.',
+        technique='exhaustive pair/triple enumeration of the comparison function against an integer-tuple reference + CLI conformance',
+        design='3/C14'),
 }
 
 PENDING_REASON = 'check not built yet in this session; see DESIGN.md section 3 for the planned bounded exploration'
